@@ -5,6 +5,8 @@
  *   nonrows   every label of 1-3 chars over [a-z0-9] (+ '-' inside), every one-edit neighbour of every row
  *   files     tld-domains.txt line i == U-label.U-label of raw.csv row i; raw.csv row i converts (IDNA2008) to punycode.csv row i
  */
+#include <fcntl.h>
+#include <unistd.h>
 #include "../mc/mc.h"
 #include "../ref/ref_tld.h"
 #include <eav.h>
@@ -174,9 +176,16 @@ int main(int argc, char **argv) {
     if (RAW.n != RT_PUNY.n) mc_violation("noreplay-files", "raw-vs-punycode-rowcount", "", "", "", 0, "raw.csv has %d rows, punycode.csv %d", RAW.n, RT_PUNY.n);
     if (NTXT != RT_PUNY.n) mc_violation("noreplay-files", "tld-domains-linecount", "", "", "", 0, "tld-domains.txt has %d lines, punycode.csv %d rows", NTXT, RT_PUNY.n);
     mc_extra_add("\"csv_rows\":%d,\"raw_rows\":%d,\"tld_domains_lines\":%d", RT_PUNY.n, RAW.n, NTXT);
+#ifdef _DEBUG
+    /* the debug build's trace output (printf from inside the library) goes to /dev/null while the generators run */
+    fflush(stdout); int saved_out = dup(1); { int dn = open("/dev/null", O_WRONLY); if (dn >= 0) { dup2(dn, 1); close(dn); } }
+#endif
     mc_parallel("rows+members+edit-neighbours: every CSV row", RT_PUNY.n, rows_shard, NULL);
     mc_parallel("nonrows: every label of 1-3 chars over [a-z0-9] (+x-y)", 36, short_shard, NULL);
     mc_parallel("files: raw.csv / punycode.csv / tld-domains.txt row by row", RAW.n < RT_PUNY.n ? RAW.n : RT_PUNY.n, files_shard, NULL);
+#ifdef _DEBUG
+    fflush(stdout); dup2(saved_out, 1); close(saved_out);
+#endif
     /* distinct non-trivial = lookups whose expected answer is 'listed' (distinct rows x variants) + unlisted neighbours; measured */
     mc_sh->ctr[C_NONTRIV] = mc_sh->ctr[C_ROWS] + mc_sh->ctr[C_FILES];
     return mc_finish();
